@@ -15,7 +15,7 @@ Record KV := {
   kv_del : bytes -> kv_st -> kv_st;               (* DB.Delete *)
   (* DB.ScanPrefix, in the order yielded. A read returns a state too: it leaves the contents alone, but background
      work (flush, compaction) may proceed while it runs - see Model/StateStoreLsm.v *)
-  kv_scan : bytes -> kv_st -> kvlist * kv_st;
+  kv_scan : bytes -> kv_st -> option kvlist * kv_st;   (* None: the scan ended with an error (storage read fault) *)
   (* dkv.Open(handles of id): [kv_restore current saved] - the database captured by DB.Checkpoint(id) reopened; the
      current state is passed so that an instance can keep what is not part of the database (a schedule) *)
   kv_restore : kv_st -> kv_st -> kv_st
@@ -47,7 +47,19 @@ Fixpoint sm_del (k : bytes) (m : kvlist) : kvlist :=
 Definition sm_scan (p : bytes) (m : kvlist) : kvlist := filter (fun kv => is_prefix p (fst kv)) m.
 
 Definition list_kv : KV :=
-  {| kv_st := kvlist; kv_put := sm_put; kv_del := sm_del; kv_scan := fun p m => (sm_scan p m, m); kv_restore := fun _ m => m |}.
+  {| kv_st := kvlist; kv_put := sm_put; kv_del := sm_del; kv_scan := fun p m => (Some (sm_scan p m), m); kv_restore := fun _ m => m |}.
+
+(* the same specification with read faults: a plan says for each coming scan whether it ends with an error *)
+Definition flist_kv : KV :=
+  {| kv_st := (kvlist * list bool)%type;
+     kv_put := fun k v s => (sm_put k v (fst s), snd s);
+     kv_del := fun k s => (sm_del k (fst s), snd s);
+     kv_scan := fun p s => match snd s with
+                           | true :: plan => (None, (fst s, plan))
+                           | false :: plan => (Some (sm_scan p (fst s)), (fst s, plan))
+                           | [] => (Some (sm_scan p (fst s)), s)
+                           end;
+     kv_restore := fun cur saved => (fst saved, snd cur) |}.
 
 (* ---------------------------------------------------------------- stored keys
    The encoders of Model/KeyCodec.v with the key-group function as a parameter ([kgf] = [key_group count] in a
@@ -100,6 +112,16 @@ Fixpoint decode_entries (l : kvlist) : option (list (bytes * entry)) :=
       end
   end.
 
+(* result of reading state: complete, failed with an error (scanErr != nil), or the panic of decodeKey *)
+Inductive fetched (S A : Type) := FOk (a : A) (s : S) | FErr (s : S) | FPanic.
+Arguments FOk {S A}. Arguments FErr {S A}. Arguments FPanic {S A}.
+
+(* what one processEventBatch did *)
+Inductive outcome :=
+| BNoCall                                   (* empty flush *)
+| BCalled (rq : request) (rs : response)    (* the handler was called, its results were applied *)
+| BFailed.                                  (* "getting state for processEventBatch: ..." returned: no call, nothing applied *)
+
 Inductive step :=
 | SBatch (evs : list event)                 (* one processEventBatch *)
 | STimerDel (k : bytes) (t : Z)             (* a due timer removed by AdvanceWatermark *)
@@ -110,9 +132,13 @@ Section Store.
   Variable K : KV.
   Variable kgf : bytes -> N.                                  (* KeySpace.KeyGroup of the deployment *)
 
-  Definition get_state (k : bytes) (s : kv_st K) : option (list ns_state * kv_st K) :=
-    let (l, s') := kv_scan K (enc_subject kgf k) s in
-    match decode_entries l with Some es => Some (group_ns es, s') | None => None end.
+  (* GetState consumes the whole scan and looks at scanErr afterwards: entries yielded before an error are dropped *)
+  Definition get_state (k : bytes) (s : kv_st K) : fetched (kv_st K) (list ns_state) :=
+    let (r, s') := kv_scan K (enc_subject kgf k) s in
+    match r with
+    | None => FErr s'
+    | Some l => match decode_entries l with Some es => FOk (group_ns es) s' | None => FPanic end
+    end.
 
   Definition apply_mutation (k ns : bytes) (s : kv_st K) (m : mutation) : kv_st K :=
     match m with
@@ -143,33 +169,37 @@ Section Store.
     | k :: l' => if mem_bytes k seen then distinct_keys seen l' else k :: distinct_keys (k :: seen) l'
     end.
 
-  Fixpoint fetch_states (ks : list bytes) (s : kv_st K) : option (list key_state * kv_st K) :=
+  (* the first error ends the batch *)
+  Fixpoint fetch_states (ks : list bytes) (s : kv_st K) : fetched (kv_st K) (list key_state) :=
     match ks with
-    | [] => Some ([], s)
+    | [] => FOk [] s
     | k :: ks' =>
         match get_state k s with
-        | Some (st, s1) =>
+        | FOk st s1 =>
             match fetch_states ks' s1 with
-            | Some (r, s2) => Some ((k, st) :: r, s2)
-            | None => None
+            | FOk r s2 => FOk ((k, st) :: r) s2
+            | FErr s2 => FErr s2
+            | FPanic => FPanic
             end
-        | None => None
+        | FErr s1 => FErr s1
+        | FPanic => FPanic
         end
     end.
 
   (* The Go code hands the KeyStates over in map-iteration order; the model uses first-occurrence order.
      Since the handler is an arbitrary function this loses nothing: compose the handler with any reordering. *)
   Definition process_batch (h : handler) (evs : list event) (s : kv_st K)
-    : option (option (request * response) * kv_st K) :=
+    : option (outcome * kv_st K) :=
     match evs with
-    | [] => Some (None, s)                                    (* empty flush: no handler call *)
+    | [] => Some (BNoCall, s)                                 (* empty flush: no handler call *)
     | _ =>
         match fetch_states (distinct_keys [] (map fst evs)) s with
-        | None => None
-        | Some (sts, s1) =>
+        | FPanic => None
+        | FErr s1 => Some (BFailed, s1)                       (* the error is returned; the events of the batch are gone *)
+        | FOk sts s1 =>
             let rq := {| rq_states := sts; rq_events := evs |} in
             let rs := h rq in
-            Some (Some (rq, rs), fold_left apply_result rs s1)
+            Some (BCalled rq rs, fold_left apply_result rs s1)
         end
     end.
 
@@ -188,8 +218,8 @@ Section Store.
     | SBatch evs =>
         match process_batch h evs (sy_db y) with
         | None => None
-        | Some (None, s') => Some {| sy_db := s'; sy_saved := sy_saved y; sy_trace := sy_trace y |}
-        | Some (Some rr, s') => Some {| sy_db := s'; sy_saved := sy_saved y; sy_trace := sy_trace y ++ [rr] |}
+        | Some (BCalled rq rs, s') => Some {| sy_db := s'; sy_saved := sy_saved y; sy_trace := sy_trace y ++ [(rq, rs)] |}
+        | Some (_, s') => Some {| sy_db := s'; sy_saved := sy_saved y; sy_trace := sy_trace y |}
         end
     | STimerDel k t =>
         Some {| sy_db := kv_del K (enc_timer kgf k t) (sy_db y); sy_saved := sy_saved y; sy_trace := sy_trace y |}
